@@ -74,51 +74,29 @@ def run(chk):
     r2 = chk.rule("C20.R2", "bytes, not characters: length, split and membership are applied to the encoded, prefixed bytes; the returned value is that value")
     r3 = chk.rule("C20.R3", "encoding branch table: str is encoded with utf8 when unicode keys are allowed, ascii otherwise; bytes untouched")
     r4 = chk.rule("C20.R4", "rejection is always MemcacheIllegalInputError")
+    work = []
+    for kind in ("bytes", "str"):
+        syms = ("x",) + SPECIAL + (("u",) if kind == "str" else ())
+        pats = list(patterns(syms, maxlen))
+        step = max(1, len(pats) // (32 if thorough else 1))
+        for i in range(0, len(pats), step):
+            work.append((kind, pats[i : i + step], prefixes, prog.root, prog.overlay if hasattr(prog, "overlay") else None))
+    if thorough and len(work) > 1:
+        from concurrent.futures import ProcessPoolExecutor
+
+        with ProcessPoolExecutor(16) as ex:
+            parts = list(ex.map(_eval_chunk, work))
+    else:
+        parts = [_eval_chunk(w, prog) for w in work]
     n = 0
     bad_iff, bad_ret, bad_exc, bad_flow, bad_enc = {}, {}, {}, {}, {}
     classes = set()
-    for kind in ("bytes", "str"):
-        syms = ("x",) + SPECIAL + (("u",) if kind == "str" else ())
-        for pat in patterns(syms, maxlen):
-            for prefix in prefixes:
-                for scen in scenarios(prefix, pat):
-                    for au in (True, False):
-                        n += 1
-                        ke = KeyEval(prog, fn)
-                        env = {
-                            kname: AStr(kind, pat, "C" if kind == "str" else "E", scen),
-                            uname: au,
-                            pname: AStr("bytes", prefix, "P", scen),
-                        }
-                        res = ke.run(env)
-                        want = spec(kind, au, prefix, pat, scen)
-                        desc = "%s key %r, prefix %r, lengths %s, allow_unicode_keys=%s" % (kind, "".join(pat), "".join(prefix), scen, au)
-                        feat = _features(kind, au, prefix, pat, scen)
-                        classes.add(feat)
-                        if res[0] == "raise":
-                            if res[1] != EXC:
-                                bad_exc.setdefault((res[1], feat), desc)
-                            if want[0] == "accept":
-                                bad_iff.setdefault(("rejects-legal", feat), desc)
-                        else:
-                            if want[0] == "reject":
-                                bad_iff.setdefault(("accepts-illegal", feat), desc)
-                            else:
-                                v = res[1]
-                                if not (isinstance(v, AStr) and v.tag == "bytes" and v.pat == want[1] and v.lenkind in ("T",) + (("E",) if not prefix else ())):
-                                    bad_ret.setdefault(feat, "%s -> returns %r, expected prefix + encoded key" % (desc, v))
-                        for what, tag, lk in ke.flow:
-                            if what in ("len", "split", "in", "search", "strip"):
-                                if tag != "bytes" or (lk not in ("T",) and not (lk == "E" and not prefix)):
-                                    bad_flow.setdefault((what, tag, lk), desc)
-                            if what == "encode":
-                                wantc = "utf8" if au else "ascii"
-                                if tag != wantc:
-                                    bad_enc.setdefault((tag, au), desc)
-                        if kind == "str" and not any(w == "encode" for w, _, _ in ke.flow):
-                            bad_enc.setdefault(("no-encode", au), desc)
-                        if kind == "bytes" and any(w == "encode" for w, _, _ in ke.flow):
-                            bad_enc.setdefault(("bytes-encoded", au), desc)
+    for pn, pc, p_iff, p_ret, p_exc, p_flow, p_enc in parts:
+        n += pn
+        classes |= pc
+        for d, src in ((bad_iff, p_iff), (bad_ret, p_ret), (bad_exc, p_exc), (bad_flow, p_flow), (bad_enc, p_enc)):
+            for k, v in src.items():
+                d.setdefault(k, v)
     r1.count("abstract inputs evaluated", n)
     r1.count("distinct feature classes", len(classes))
     r1.floor("abstract inputs", n, 5000)
@@ -212,6 +190,63 @@ def run(chk):
     r5.floor("key fragments on the wire", n_keys, 18)
     chk.assume("CPython semantics of str.encode('ascii'/'utf8') and bytes.split() as modelled in pmcsa/keyeval.py")
     chk.assume("str keys are well-formed Unicode (no lone surrogates), as in the property's quantifier")
+
+
+def _eval_chunk(w, prog=None):
+    """Evaluate check_key_helper on one slice of the abstract input space (own process in the thorough tier)."""
+    kind, pats, prefixes, root, overlay = w
+    if prog is None:
+        from . import model as _m
+
+        prog = _m.Program(root=root, overlay=overlay)
+    fn = prog.function("pymemcache/client/base.py", "check_key_helper")
+    pp = [p.name for p in fn.pos_params()]
+    kname, uname, pname = pp[0], pp[1], pp[2]
+    n = 0
+    bad_iff, bad_ret, bad_exc, bad_flow, bad_enc = {}, {}, {}, {}, {}
+    classes = set()
+    if True:
+        for pat in pats:
+            for prefix in prefixes:
+                for scen in scenarios(prefix, pat):
+                    for au in (True, False):
+                        n += 1
+                        ke = KeyEval(prog, fn)
+                        env = {
+                            kname: AStr(kind, pat, "C" if kind == "str" else "E", scen),
+                            uname: au,
+                            pname: AStr("bytes", prefix, "P", scen),
+                        }
+                        res = ke.run(env)
+                        want = spec(kind, au, prefix, pat, scen)
+                        desc = "%s key %r, prefix %r, lengths %s, allow_unicode_keys=%s" % (kind, "".join(pat), "".join(prefix), scen, au)
+                        feat = _features(kind, au, prefix, pat, scen)
+                        classes.add(feat)
+                        if res[0] == "raise":
+                            if res[1] != EXC:
+                                bad_exc.setdefault((res[1], feat), desc)
+                            if want[0] == "accept":
+                                bad_iff.setdefault(("rejects-legal", feat), desc)
+                        else:
+                            if want[0] == "reject":
+                                bad_iff.setdefault(("accepts-illegal", feat), desc)
+                            else:
+                                v = res[1]
+                                if not (isinstance(v, AStr) and v.tag == "bytes" and v.pat == want[1] and v.lenkind in ("T",) + (("E",) if not prefix else ())):
+                                    bad_ret.setdefault(feat, "%s -> returns %r, expected prefix + encoded key" % (desc, v))
+                        for what, tag, lk in ke.flow:
+                            if what in ("len", "split", "in", "search", "strip"):
+                                if tag != "bytes" or (lk not in ("T",) and not (lk == "E" and not prefix)):
+                                    bad_flow.setdefault((what, tag, lk), desc)
+                            if what == "encode":
+                                wantc = "utf8" if au else "ascii"
+                                if tag != wantc:
+                                    bad_enc.setdefault((tag, au), desc)
+                        if kind == "str" and not any(w == "encode" for w, _, _ in ke.flow):
+                            bad_enc.setdefault(("no-encode", au), desc)
+                        if kind == "bytes" and any(w == "encode" for w, _, _ in ke.flow):
+                            bad_enc.setdefault(("bytes-encoded", au), desc)
+    return n, classes, bad_iff, bad_ret, bad_exc, bad_flow, bad_enc
 
 
 def wrapper_returns(prog, r5):
